@@ -100,6 +100,9 @@ pub struct BodySpec {
     pub damage: Damage,
     /// 0 none, 1 UTF-8 BOM, 2 UTF-16LE BOM, 3 UTF-16BE BOM
     pub bom: u8,
+    /// when > 1: the encoded (and damaged) text is repeated this many times (bodies of many megabytes)
+    #[serde(default)]
+    pub repeat: u16,
 }
 
 #[derive(Debug, Clone, Serialize, Deserialize)]
@@ -140,6 +143,10 @@ pub struct Case {
     /// index into MEDIA_TYPES: the media type in front of the charset parameter plays no part in choosing the charset
     #[serde(default)]
     pub media: u8,
+    /// (streaming reader drained by read_to_string) when size > 0: first `count` reads into a buffer of `size` bytes, then the
+    /// rest through read_to_string / read_to_end (by parity of count): the text is the concatenation
+    #[serde(default)]
+    pub small_first: (u8, u8),
 }
 
 pub const MEDIA_TYPES: &[&str] = &["text/html", "text/plain", "application/json", "application/problem+json", "Application/JSON", "application/xml", "text/event-stream", "application/octet-stream"];
@@ -223,6 +230,9 @@ impl BodySpec {
                 b.splice(k..k, bytes);
             }
         }
+        if self.repeat > 1 {
+            b = b.repeat(self.repeat as usize);
+        }
         let bom: &[u8] = match self.bom {
             1 => b"\xEF\xBB\xBF",
             2 => b"\xFF\xFE",
@@ -278,6 +288,29 @@ identical result across segmentations and reader styles (all bodies), never Err.
         tier.pick(2500, 60_000)
     }
 
+    fn enumerated(_tier: Tier, worker: usize, _nworkers: usize) -> Option<Box<dyn Iterator<Item = Case>>> {
+        // two fixed members: texts of well over 10 MiB (UTF-8 of all scripts; a single-byte charset whose decoded form is
+        // about twice the body) go through the same helpers as any other text
+        if worker != 0 {
+            return None;
+        }
+        let big = |enc: u8, api: Api| Case {
+            body: BodySpec { enc, chars: 60_000, seed: 7, damage: Damage::None, bom: 0, repeat: 120 },
+            ct: ContentType::Absent,
+            session_default: None,
+            request_default: Some(Some(enc)),
+            api,
+            framing: Framing::Length,
+            segs: vec![Seg::Whole],
+            request_ct: 0,
+            interrupts: vec![],
+            media: 0,
+            small_first: (0, 0),
+        };
+        let koi8 = table().iter().position(|(c, _)| *c == cs::KOI8_R).unwrap_or(0) as u8;
+        Some(Box::new(vec![big(0, Api::Text), big(koi8, Api::Text), big(koi8, Api::TextReader { with: None, buf: 0 })].into_iter()))
+    }
+
     fn strategy(_tier: Tier) -> BoxedStrategy<Case> {
         let n = table().len() as u8;
         let body = (
@@ -294,7 +327,7 @@ identical result across segmentations and reader styles (all bodies), never Err.
             ],
             prop_oneof![8 => Just(0u8), 1 => 1u8..4],
         )
-            .prop_map(|(enc, chars, seed, damage, bom)| BodySpec { enc, chars, seed, damage, bom });
+            .prop_map(|(enc, chars, seed, damage, bom)| BodySpec { enc, chars, seed, damage, bom, repeat: 0 });
         let ct = prop_oneof![
             1 => Just(ContentType::Absent),
             1 => Just(ContentType::NoParam),
@@ -315,9 +348,9 @@ identical result across segmentations and reader styles (all bodies), never Err.
             prop_oneof![3 => Just(None), 1 => (0..n).prop_map(|e| Some(Some(e))), 1 => Just(Some(None))],
             api,
             crate::props::c01::framing_strategy(),
-            (proptest::collection::vec(seg(), 1..4), prop_oneof![4 => Just(0u8), 1 => Just(1u8), 1 => Just(2u8)], prop_oneof![4 => Just(vec![]), 1 => proptest::collection::vec(any::<u16>(), 1..3)], prop_oneof![1 => Just(0u8), 2 => 1u8..MEDIA_TYPES.len() as u8]),
+            (proptest::collection::vec(seg(), 1..4), prop_oneof![4 => Just(0u8), 1 => Just(1u8), 1 => Just(2u8)], prop_oneof![4 => Just(vec![]), 1 => proptest::collection::vec(any::<u16>(), 1..3)], prop_oneof![1 => Just(0u8), 2 => 1u8..MEDIA_TYPES.len() as u8], prop_oneof![1 => Just((0u8, 0u8)), 1 => (1u8..64, 1u8..5)]),
         )
-            .prop_map(|(body, ct, session_default, request_default, api, framing, (segs, request_ct, interrupts, media))| Case {
+            .prop_map(|(body, ct, session_default, request_default, api, framing, (segs, request_ct, interrupts, media, small_first))| Case {
                 body,
                 ct,
                 session_default,
@@ -328,6 +361,7 @@ identical result across segmentations and reader styles (all bodies), never Err.
                 request_ct,
                 interrupts,
                 media,
+                small_first,
             })
             .boxed()
     }
@@ -425,7 +459,40 @@ identical result across segmentations and reader styles (all bodies), never Err.
                         Some(e) => resp.text_reader_with(enc_of(*e)),
                         None => resp.text_reader(),
                     };
-                    if *buf == 0 {
+                    if *buf == 0 && case.small_first.0 > 0 {
+                        ctx.label("streaming-reader:small-reads-then-read_to_string/end");
+                        let mut out: Vec<u8> = vec![];
+                        let mut b = vec![0u8; case.small_first.0 as usize];
+                        let mut res: Result<(), String> = Ok(());
+                        let mut done = 0;
+                        while done < case.small_first.1 {
+                            match r.read(&mut b) {
+                                Ok(0) => break,
+                                Ok(n) => {
+                                    out.extend_from_slice(&b[..n]);
+                                    done += 1;
+                                }
+                                Err(e) if e.kind() == std::io::ErrorKind::Interrupted => continue,
+                                Err(e) => {
+                                    res = Err(format!("{e:?}"));
+                                    break;
+                                }
+                            }
+                        }
+                        if res.is_ok() {
+                            // (read_to_string validates what *it* reads: it is only used when the small reads ended on a character boundary)
+                            res = if case.small_first.1 % 2 == 0 && std::str::from_utf8(&out).is_ok() {
+                                let mut s = String::new();
+                                r.read_to_string(&mut s).map(|_| out.extend_from_slice(s.as_bytes())).map_err(|e| format!("{e:?}"))
+                            } else {
+                                r.read_to_end(&mut out).map(|_| ()).map_err(|e| format!("{e:?}"))
+                            };
+                        }
+                        match res {
+                            Ok(()) => String::from_utf8(out).map_err(|_| "streaming reader produced invalid UTF-8".to_string()),
+                            Err(e) => Err(e),
+                        }
+                    } else if *buf == 0 {
                         let mut s = String::new();
                         r.read_to_string(&mut s).map(|_| s).map_err(|e| format!("{e:?}"))
                     } else {
